@@ -402,6 +402,35 @@ func init() {
 func ruleFieldCountsSource(r *Run) {
 	w := r.W
 	n := 0
+	isDecrement := func(in ssa.Instruction) (*ssa.MapUpdate, bool) {
+		mu, ok := in.(*ssa.MapUpdate)
+		if !ok || !isFieldLoad(mu.Map, "memdb", "fields") {
+			return nil, false
+		}
+		bo, ok := mu.Value.(*ssa.BinOp)
+		if !ok || bo.Op != token.SUB {
+			return nil, false
+		}
+		return mu, true
+	}
+	// wrappers: functions that decrement the count of the field named by one of their parameters
+	wrapper := map[*ssa.Function]int{}
+	for _, f := range w.RepoFuncs {
+		if relPkg(pkgPathOf(f)) != "datatype/neuronjson" || len(f.Blocks) == 0 {
+			continue
+		}
+		for _, b := range f.Blocks {
+			for _, in := range b.Instrs {
+				if mu, ok := isDecrement(in); ok {
+					for i, p := range f.Params {
+						if stripConv(mu.Key) == ssa.Value(p) {
+							wrapper[f] = i
+						}
+					}
+				}
+			}
+		}
+	}
 	for _, f := range w.RepoFuncs {
 		if relPkg(pkgPathOf(f)) != "datatype/neuronjson" || len(f.Blocks) == 0 || strings.HasSuffix(w.fposFile(f), "_test.go") {
 			continue
@@ -409,18 +438,22 @@ func ruleFieldCountsSource(r *Run) {
 		k := 0
 		for _, b := range f.Blocks {
 			for _, in := range b.Instrs {
-				mu, ok := in.(*ssa.MapUpdate)
-				if !ok || !isFieldLoad(mu.Map, "memdb", "fields") {
-					continue
+				var key ssa.Value
+				if mu, ok := isDecrement(in); ok {
+					key = mu.Key
+				} else if c, ok := in.(ssa.CallInstruction); ok {
+					if callee := staticCallee(c); callee != nil {
+						if i, ok := wrapper[callee]; ok && i < len(c.Common().Args) {
+							key = c.Common().Args[i]
+						}
+					}
 				}
-				// a decrement: value = lookup - 1
-				bo, ok := mu.Value.(*ssa.BinOp)
-				if !ok || bo.Op != token.SUB {
+				if key == nil {
 					continue
 				}
 				// the key comes from ranging over …
 				var rng *ssa.Range
-				for d := range dataDeps(mu.Key) {
+				for d := range dataDeps(key) {
 					if nx, ok := d.(*ssa.Next); ok {
 						if rg, ok := nx.Iter.(*ssa.Range); ok {
 							rng = rg
@@ -439,7 +472,7 @@ func ruleFieldCountsSource(r *Run) {
 					}
 				}
 				r.check(fromMem, fmt.Sprintf("%s:field-count-decrement#%d:over-the-record-in-memory", fname(f), k), "the loop ranges over mdb.data[bodyid]",
-					"the per-field counters are decremented over a map other than the record held in memory (e.g. the stored copy after the update step removed the nulled fields): fields that an update removes keep their count, and GET fields on the head lists fields the store no longer has", w.pos(mu.Pos()))
+					"the per-field counters are decremented over a map other than the record held in memory (e.g. the stored copy after the update step removed the nulled fields): fields that an update removes keep their count, and GET fields on the head lists fields the store no longer has", w.pos(in.Pos()))
 			}
 		}
 	}
